@@ -125,9 +125,11 @@ func (node *OuterJoin) Typecheck(ctx context.Context, env physical.Environment, 
 
 	return physical.Node{
 		Schema: physical.Schema{
-			Fields:        outSchemaFields,
-			TimeField:     left.Schema.TimeField,
-			NoRetractions: left.Schema.NoRetractions && right.Schema.NoRetractions,
+			Fields:    outSchemaFields,
+			TimeField: left.Schema.TimeField,
+			// An outer join retracts the NULL-padded row when a match arrives later (and re-emits it
+			// when the last match is retracted), whatever its inputs do.
+			NoRetractions: false,
 		},
 		NodeType: physical.NodeTypeOuterJoin,
 		OuterJoin: &physical.OuterJoin{
